@@ -18,9 +18,9 @@ pub fn def() -> CheckDef {
         info: CheckInfo {
             id: "C17",
             level: "exploration",
-            rule: "one seeded run = one history (as C02: edits, backups with any options, backups killed before operation k, deletes, gc) executed three times into fresh simulated stores: flavour A sorted storage listings and no delays; flavour B shuffled listings plus seeded delays that reorder the completion of sibling tasks; flavour C reversed listings and another delay seed; flavour D sorted, no delays, but every simulated process exits the moment its call returns, so tasks it detached (the GC-lock cleanup spawned from Drop) never run; flavour E as A with the simulated wall clock 70 years ahead (clock skew between the two replays). Oracle: the stores have the same path set and byte-identical files (BANDHEAD/BANDTAIL compared as JSON without start_time/end_time) and the three operation logs have the same sequence of mutating operations (verb, path, content hash); for flavour D the first step at which lock presence or outcome diverges from flavour A is reported. Non-trivial: the history made at least two archive-changing steps; distinct = distinct final store hash.",
+            rule: "one seeded run = one history (as C02: edits, backups with any options, backups killed before operation k, deletes, gc) executed three times into fresh simulated stores: flavour A sorted storage listings and no delays; flavour B shuffled listings plus seeded delays that reorder the completion of sibling tasks; flavour C reversed listings and another delay seed; flavour D sorted, no delays, but every simulated process exits the moment its call returns, so tasks it detached (the GC-lock cleanup spawned from Drop) never run; flavour E as A with the simulated wall clock 70 years ahead (clock skew between the two replays); flavour F as A on a real multi-thread tokio runtime with 4 workers (files only, not the order of operations). Oracle: the stores have the same path set and byte-identical files (BANDHEAD/BANDTAIL compared as JSON without start_time/end_time) and the three operation logs have the same sequence of mutating operations (verb, path, content hash); for flavour D the first step at which lock presence or outcome diverges from flavour A is reported. Non-trivial: the history made at least two archive-changing steps; distinct = distinct final store hash.",
             assumptions: &[
-                "OS-level races inside tokio's multi-thread scheduler are not controlled by this simulator; the write path has no spawned tasks today, and flavour B's delay seam would reorder them if it gained any",
+                "flavours A-E run on current-thread runtimes whose task order the simulator decides (delay seam); flavour F is a real 4-worker runtime whose scheduling is the operating system's: a difference it shows is re-executed on 16 threads at once before it is reported, and is reproducible only with high probability",
                 "each flavour materialises the same explicit edits in its own scratch directory",
             ],
             real: super::REAL_COMPONENTS,
@@ -82,6 +82,9 @@ fn execute(sc: &Scenario, acc: &mut Acc) -> Result<Vec<Violation>, String> {
         // of it are the start and end times, which the comparison leaves out) is decades
         // ahead, later than any timestamp the real file system gives the source files
         (ListOrder::Sorted, None, true, 4_000_000_000),
+        // a real multi-thread runtime with four workers: which worker runs a spawned task,
+        // and when, is not the simulator's decision here (see the assumptions)
+        (ListOrder::Sorted, None, true, crate::sim::SIM_EPOCH),
     ];
     let mut results: Vec<Flavoured> = Vec::new();
     let mut trails: Vec<Vec<(bool, String)>> = Vec::new();
@@ -94,6 +97,10 @@ fn execute(sc: &Scenario, acc: &mut Acc) -> Result<Vec<Violation>, String> {
         let mut trail: Vec<(bool, String)> = Vec::new();
         let mut w = World::new(env, sc.root_meta);
         w.set_clock_base(*clock_base);
+        if results.len() == 5 {
+            w.set_runtime_workers(4);
+            acc.hit("multi_thread_runtime_flavour");
+        }
         let mut a2 = Acc::default();
         changing_steps = 0;
         for step in &sc.steps {
@@ -169,17 +176,18 @@ fn execute(sc: &Scenario, acc: &mut Acc) -> Result<Vec<Violation>, String> {
     if changing_steps >= 2 {
         acc.nontrivial.insert(rng::mix(&results[0].0.iter().map(|(p, b)| rng::mix(&[rng::hash_str(p), rng::hash_bytes(b)])).collect::<Vec<_>>()));
     }
-    for (i, name) in [(1usize, "shuffled+delays"), (2usize, "reversed+delays"), (4usize, "another wall-clock time")] {
+    for (i, name) in [(1usize, "shuffled+delays"), (2usize, "reversed+delays"), (4usize, "another wall-clock time"), (5usize, "multi-thread runtime (4 workers)")] {
         let (a, b) = (&results[0], &results[i]);
         if a.0 != b.0 || a.2 != b.2 {
             let pa: BTreeSet<&String> = a.0.iter().map(|(p, _)| p).collect();
             let pb: BTreeSet<&String> = b.0.iter().map(|(p, _)| p).collect();
             let disc = if pa != pb || a.2 != b.2 { "path_set" } else { "file_bytes" };
-            let disc = if i == 4 { format!("clock:{disc}") } else { disc.to_string() };
+            let disc = if i == 4 { format!("clock:{disc}") } else if i == 5 { format!("multi_thread:{disc}") } else { disc.to_string() };
             let first = a.0.iter().zip(b.0.iter()).find(|(x, y)| x != y).map(|(x, y)| format!("{} vs {}", x.0, y.0)).unwrap_or_default();
             out.push(Violation::new(prop, "stores_identical_across_flavours", disc, format!("sorted/no-delay vs {name}: first difference at {first}")));
         }
-        if a.1 != b.1 {
+        // the order of operations is only demanded of the flavours the simulator schedules
+        if a.1 != b.1 && i != 5 {
             let first = a.1.iter().zip(b.1.iter()).position(|(x, y)| x != y).unwrap_or(a.1.len().min(b.1.len()));
             out.push(Violation::new(
                 prop,
